@@ -235,8 +235,10 @@ fn workload(m: &mut Mon, bits: usize) {
     if bits <= 1024 && !m.is_light() {
         m.mark_exhaustive(format!("BITS={bits}: every index in [0, BITS+64] for bit/set_bit/byte/checked_byte on 5 values"));
     }
-    for i in [usize::MAX, usize::MAX / 8, usize::MAX / 64, 1 << 32] {
+    for i in [usize::MAX, usize::MAX - 1, usize::MAX / 8, usize::MAX / 8 + 1, usize::MAX / 64, usize::MAX / 64 + 1, 1 << 32, 1 << 61, (1 << 61) + 1,
+              (1 << 62) + 3, 1 << 63, (1 << 63) + 7, usize::MAX / 2, usize::MAX / 2 + 1] {
         m.case("index", bits, vec![au(&gen::max(bits)), an(i)]);
+        m.case("index", bits, vec![au(&gen::zero(bits)), an(i)]);
     }
     // random
     let mut r = m.stream("c06.random", bits);
